@@ -473,7 +473,7 @@ fn check_chain(r: &Roots, chain: &[ChainStep]) -> Result<usize, String> {
     }
 }
 
-const RULE: &str = "(1) EXHAUSTIVE: every string that is a concatenation of <=N tokens over {'/','.','..','a','b.c','é'} (N=7 quick, 10 thorough) joined onto 5 bases, for VfsPath and AsyncVfsPath; (2) random: strings over a wider alphabet (spaces, backslash, combining marks, 4-byte scalars, NUL, up to 64 tokens) and arbitrary Strings, composition pairs, and chains of join/parent/root up to length 12; long arguments (64..700 tokens, and filler runs ending at byte lengths 31..65536 with multi-byte fillers across the edge; component COUNTS at 16..65536 ± 2); chains of up to 24 steps over 8 short names where the same segment recurs on different bases of equal length, with clones kept and dropped in between (join must not depend on the history); joins onto short-lived temporaries (`deep.parent().join(seg)` over 2..8 deep paths with parents of equal byte length, expected values computed beforehand so that the allocator can hand the same address to the next temporary); oracle = 15-line reference resolver + canonical-form predicate + accessor laws (parent, filename, extension, root, is_root, equality across two instances and against a filesystem that has been alive since process start while millions of others were created); non-trivial = argument with >=1 '..' and >=1 other component, or a multi-byte character adjacent to a separator, or a chain with >=3 joins; distinct by (base,arg) hash";
+const RULE: &str = "(1) EXHAUSTIVE: every string that is a concatenation of <=N tokens over {'/','.','..','a','b.c','é'} (N=7 quick, 10 thorough) joined onto 5 bases, for VfsPath and AsyncVfsPath; (2) random: strings over a wider alphabet (spaces, backslash, combining marks, 4-byte scalars, NUL, up to 64 tokens) and arbitrary Strings, composition pairs, and chains of join/parent/root up to length 12; long arguments (64..700 tokens, and filler runs ending at byte lengths 31..65536 with multi-byte fillers across the edge; component COUNTS at 16..65536 ± 2); chains of up to 24 steps over 8 short names where the same segment recurs on different bases of equal length, with clones kept and dropped in between (join must not depend on the history); joins onto short-lived temporaries (`deep.parent().join(seg)` over 2..8 deep paths with parents of equal byte length, expected values computed beforehand so that the allocator can hand the same address to the next temporary); oracle = 15-line reference resolver + canonical-form predicate + accessor laws (parent, filename, extension, root, is_root, equality across two instances and against a filesystem that has been alive since process start while millions of others were created); non-trivial = argument with >=1 '..' and >=1 other component, or a multi-byte character adjacent to a separator, or a chain with >=3 joins; distinct by (base,arg) hash; PLUS, against an UNOPTIMISED build of vfs (crate harness_dbg: opt-level 0, overflow checks, debug assertions - the build `cargo test` and debug applications use): joins of arguments with 1 .. 10^6 segments (4*10^6 in thorough; a fixed ladder with seed-dependent offsets) of seven kinds (names, '.', '..', empty, alternating name/'..', absolute, mixed) onto bases of depth 0 and 3, each on a thread with the default 2 MiB stack, compared with an iterative reference resolver incl. parent()/filename() of the result; a process killed by the stack guard is a violation";
 
 /// join on SHORT-LIVED bases: every base is a temporary (`deep.parent()`), dropped right after
 /// the join, so that the next temporary may live at the same address with the same length. The
@@ -542,7 +542,47 @@ fn chain_json(chain: &[ChainStep]) -> Value {
     }).collect::<Vec<_>>()})
 }
 
+/// C06 against an UNOPTIMISED build of vfs (crate harness_dbg, binary `joindbg`, built by ./run and
+/// named by VERIF_JOINDBG): joins of arguments with up to millions of segments on threads with the
+/// default stack, compared with an iterative reference resolver. A process killed by the stack
+/// guard (or any other signal) is a violation: join is not total in that build.
+/// Returns (cases, joins) or None if the binary is not available (fuzz targets, direct invocation).
+fn unoptimised_part(one: Option<(&str, u64, u64)>, tier: &str, seed: u64) -> Result<Option<(u64, u64)>, Failure> {
+    let Some(bin) = std::env::var_os("VERIF_JOINDBG").map(std::path::PathBuf::from).filter(|p| p.is_file()) else { return Ok(None) };
+    let mut cmd = std::process::Command::new(&bin);
+    if let Some((k, n, d)) = one {
+        cmd.arg(k).arg(n.to_string()).arg(d.to_string());
+    }
+    let out = cmd.env("VERIF_TIER", tier).env("VERIF_SEED", seed.to_string()).output().map_err(|e| Failure { message: format!("cannot run {}: {}", bin.display(), e), replay: json!({"kind": "infra"}) })?;
+    let stdout = String::from_utf8_lossy(&out.stdout).to_string();
+    let last_case: Vec<String> = stdout.lines().filter(|l| l.starts_with("CASE ")).last().map(|l| l.split_whitespace().skip(1).map(String::from).collect()).unwrap_or_default();
+    let done: Option<(u64, u64)> = stdout.lines().find(|l| l.starts_with("DONE ")).and_then(|l| {
+        let mut it = l.split_whitespace().skip(1).filter_map(|x| x.parse::<u64>().ok());
+        Some((it.next()?, it.next()?))
+    });
+    if out.status.success() {
+        if let Some(d) = done {
+            return Ok(Some(d));
+        }
+    }
+    let what = stdout.lines().find(|l| l.starts_with("MISMATCH") || l.starts_with("PANIC")).map(String::from).unwrap_or_else(|| {
+        let err = String::from_utf8_lossy(&out.stderr);
+        format!("the process ended with {:?}: {}", out.status, err.lines().rev().take(2).collect::<Vec<_>>().join(" | "))
+    });
+    let (k, n, d) = (last_case.first().cloned().unwrap_or_default(), last_case.get(1).and_then(|x| x.parse::<u64>().ok()).unwrap_or(0), last_case.get(2).and_then(|x| x.parse::<u64>().ok()).unwrap_or(0));
+    Err(Failure {
+        message: format!("unoptimised build of vfs (opt-level 0): join of an argument of {} '/'-separated segments of kind '{}' on a base of depth {} (thread with the default 2 MiB stack): {}", n, k, d, what),
+        replay: json!({"kind": "join-unoptimised", "segment_kind": k, "segments": n, "base_depth": d}),
+    })
+}
+
 pub fn replay(v: &Value) -> CaseResult {
+    if v.get("kind").and_then(|k| k.as_str()) == Some("join-unoptimised") {
+        let k = v.get("segment_kind").and_then(|x| x.as_str()).unwrap_or("names");
+        let n = v.get("segments").and_then(|x| x.as_u64()).unwrap_or(1);
+        let d = v.get("base_depth").and_then(|x| x.as_u64()).unwrap_or(0);
+        return unoptimised_part(Some((k, n, d)), "quick", 0).map(|_| ());
+    }
     let r = Roots::new();
     if v.get("kind").and_then(|k| k.as_str()) == Some("join") {
         let base = v.get("base").and_then(|x| x.as_str()).unwrap_or("");
@@ -702,12 +742,24 @@ pub fn run(ctx: &RunCtx) -> i32 {
         stats.merge(s5);
         failure = f5;
     }
+    let mut unopt = json!("binary not available (VERIF_JOINDBG unset): part not run");
+    if failure.is_none() {
+        match unoptimised_part(None, if matches!(ctx.tier, Tier::Thorough) { "thorough" } else { "quick" }, ctx.seed) {
+            Ok(Some((cases, joins))) => {
+                stats.evaluations += joins;
+                stats.label_n("joins_in_the_unoptimised_build(1..10^6_segments)", joins);
+                unopt = json!({"cases": cases, "joins": joins, "profile": "dev: opt-level 0, overflow checks and debug assertions on", "stack": "default thread stack (2 MiB)"});
+            }
+            Ok(None) => {}
+            Err(f) => failure = Some(f),
+        }
+    }
     write_evidence(
         ctx,
         "exploration",
         RULE,
         &stats,
-        json!({"exhaustive": true, "exhaustive_bound": format!("all token strings of <= {} tokens x {} bases (the random parts are sampled, not exhaustive)", max_tokens, BASES.len()), "regress_replayed": reg.replayed}),
+        json!({"unoptimised_build_part": unopt, "exhaustive": true, "exhaustive_bound": format!("all token strings of <= {} tokens x {} bases (the random parts are sampled, not exhaustive)", max_tokens, BASES.len()), "regress_replayed": reg.replayed}),
         &["arguments are valid UTF-8 (&str)", "the reference resolver is the 15-line function ref_join in props/c06.rs"],
         failure.is_some() as u32,
     );
